@@ -380,7 +380,12 @@ def check_obj_repr(R, prog):
 def check_hash_order(R, prog):
     n = 0
     bad = 0
-    for fi in prog.all_functions():
+    sites = 0
+    control = []
+    import types as _types
+    ctl = ast.parse("def control(xs):\n    seen = set(xs)\n    out = []\n    for x in seen:\n        out.append(x)\n    return out\n").body[0]
+    for fi in list(prog.all_functions()) + [_types.SimpleNamespace(node=ctl, qualname="<positive control>")]:
+        is_control = fi.node is ctl
         sets = set()
         setlists = set()
         for s in stmts_in(fi.node):
@@ -429,22 +434,29 @@ def check_hash_order(R, prog):
                 its = list(node.args)
             elif isinstance(node, ast.Call) and method_name(node) == "pop" and is_set(node.func.value):
                 its = [node.func.value]
+            sites += len(its) if not is_control else 0
             for it in its:
                 target = it
                 if isinstance(it, ast.Call) and call_name(it) in ("enumerate", "list", "tuple", "iter") and it.args:
                     target = it.args[0]
-                if is_set(target):
+                if is_set(target) and is_control:
+                    control.append(node)
+                elif is_set(target):
                     n += 1
                     bad += 1
                     R.bad(F("NO-HASH-ORDER", fi, "%s iterates over a set" % fi.qualname,
                             "`%s` is a set and `%s` takes its elements in hash order: for string elements the order changes with "
                             "PYTHONHASHSEED (sort it, or keep a list)" % (src(target), src(node)[:50] if not isinstance(node, ast.comprehension) else src(it)), node if not isinstance(node, ast.comprehension) else it))
         for sname in sorted(sets | setlists):
-            n += 1
+            n += 0 if is_control else 1
     # every comprehension loop
     for fi in prog.all_functions():
         for node in ast.walk(fi.node):
             pass
     if not bad:
         R.ok("NO-HASH-ORDER", "sets are used for membership only: none is iterated, popped or listed (%d set-valued names examined)" % n, "cnfgen")
-    R.floor("NO-HASH-ORDER sets", n, 3)
+    if not control:
+        raise AnalysisError("NO-HASH-ORDER: the positive control (a loop over a local set) was not recognised: the rule is blind")
+    R.count("iteration constructs examined for set operands", sites)
+    R.floor("NO-HASH-ORDER iteration constructs", sites, 300)
+    R.floor("NO-HASH-ORDER sets", n, 1)
